@@ -502,35 +502,28 @@ void ep_curve_set_endom(const fp_t a, const fp_t b, const ep_t g, const bn_t r,
 		}
 			bn_gcd_ext_mid(&(ctx->ep_v1[1]), &(ctx->ep_v1[2]), &(ctx->ep_v2[1]),
 					&(ctx->ep_v2[2]), m, r);
-			/* m = (v1[1] * v2[2] - v1[2] * v2[1]) / 2. */
+			/* m = v1[1] * v2[2] - v1[2] * v2[1], n = |m|, t = |m| / 2. */
 			bn_mul(&(ctx->ep_v1[0]), &(ctx->ep_v1[1]), &(ctx->ep_v2[2]));
 			bn_mul(&(ctx->ep_v2[0]), &(ctx->ep_v1[2]), &(ctx->ep_v2[1]));
 			bn_sub(m, &(ctx->ep_v1[0]), &(ctx->ep_v2[0]));
-			bn_hlv(m, m);
-			/* v1[0] = round(v2[2] * 2^|n| / m). */
+			bn_abs(n, m);
+			bn_hlv(t, n);
+			/* v1[0] = round(v2[2] * 2^(|n| + 1) / m). */
 			bn_lsh(&(ctx->ep_v1[0]), &(ctx->ep_v2[2]), bits + 1);
-			if (bn_sign(&(ctx->ep_v1[0])) == RLC_POS) {
-				bn_add(&(ctx->ep_v1[0]), &(ctx->ep_v1[0]), m);
-			} else {
-				bn_sub(&(ctx->ep_v1[0]), &(ctx->ep_v1[0]), m);
+			bn_abs(&(ctx->ep_v1[0]), &(ctx->ep_v1[0]));
+			bn_add(&(ctx->ep_v1[0]), &(ctx->ep_v1[0]), t);
+			bn_div(&(ctx->ep_v1[0]), &(ctx->ep_v1[0]), n);
+			if (bn_sign(&(ctx->ep_v2[2])) != bn_sign(m)) {
+				bn_neg(&(ctx->ep_v1[0]), &(ctx->ep_v1[0]));
 			}
-			bn_dbl(m, m);
-			bn_div(&(ctx->ep_v1[0]), &(ctx->ep_v1[0]), m);
-			if (bn_sign(&ctx->ep_v1[0]) == RLC_NEG) {
-				bn_add_dig(&(ctx->ep_v1[0]), &(ctx->ep_v1[0]), 1);
-			}
-			/* v2[0] = round(v1[2] * 2^|n| / m). */
+			/* v2[0] = -round(v1[2] * 2^(|n| + 1) / m). */
 			bn_lsh(&(ctx->ep_v2[0]), &(ctx->ep_v1[2]), bits + 1);
-			if (bn_sign(&(ctx->ep_v2[0])) == RLC_POS) {
-				bn_add(&(ctx->ep_v2[0]), &(ctx->ep_v2[0]), m);
-			} else {
-				bn_sub(&(ctx->ep_v2[0]), &(ctx->ep_v2[0]), m);
+			bn_abs(&(ctx->ep_v2[0]), &(ctx->ep_v2[0]));
+			bn_add(&(ctx->ep_v2[0]), &(ctx->ep_v2[0]), t);
+			bn_div(&(ctx->ep_v2[0]), &(ctx->ep_v2[0]), n);
+			if (bn_sign(&(ctx->ep_v1[2])) == bn_sign(m)) {
+				bn_neg(&(ctx->ep_v2[0]), &(ctx->ep_v2[0]));
 			}
-			bn_div(&(ctx->ep_v2[0]), &(ctx->ep_v2[0]), m);
-			if (bn_sign(&ctx->ep_v2[0]) == RLC_NEG) {
-				bn_add_dig(&(ctx->ep_v2[0]), &(ctx->ep_v2[0]), 1);
-			}
-			bn_neg(&(ctx->ep_v2[0]), &(ctx->ep_v2[0]));
 	} RLC_CATCH_ANY {
 		RLC_THROW(ERR_CAUGHT);
 	} RLC_FINALLY {
